@@ -952,7 +952,8 @@ void sync_exit_locked(World &W, int si, int rc)
 
 	// C06: the NEW set of a reload is what this response really carried (a response may be well-formed and still not
 	// be the cache's complete state, e.g. with an End of Data in the middle)
-	if (W.c06 && !W.wins.empty() && W.wins.back().si == si && W.wins.back().done && W.wins.back().end + 1 >= W.stamp && w.kind == WK_OK) {
+	if (W.c06 && !W.wins.empty() && W.wins.back().si == si && W.wins.back().done && W.wins.back().xid == x.id && W.wins.back().call == x.sync_calls &&
+	    w.kind == WK_OK) {
 		W.wins.back().newp = w.new_pfx;
 		W.wins.back().news = w.new_spki;
 	}
@@ -1189,9 +1190,23 @@ void sync_exit_locked(World &W, int si, int rc)
 			W.mirror_spki.insert(as.begin(), as.end());
 		}
 	}
+	bool changed_records = !(ap == bp && as == bs);
 	W.model_pfx[(size_t)si] = ap;
 	W.model_spki[(size_t)si] = as;
-	if (rc == RTR_SUCCESS || !(ap == bp && as == bs))
+	if (W.c06 && changed_records) {
+		// another socket's records changed while a reload window is open (or has just closed): readers may see either state of them
+		for (auto &wn : W.wins)
+			if (wn.si != si && (!wn.done || wn.end + 400 > W.stamp)) {
+				std::pair<std::set<PfxRec>, std::set<SpkiRec>> alt;
+				for (int o = 0; o < W.n; o++)
+					if (o != wn.si) {
+						alt.first.insert(W.model_pfx[(size_t)o].begin(), W.model_pfx[(size_t)o].end());
+						alt.second.insert(W.model_spki[(size_t)o].begin(), W.model_spki[(size_t)o].end());
+					}
+				wn.other_alt.push_back(alt);
+			}
+	}
+	if (rc == RTR_SUCCESS || changed_records)
 		W.ctx.nontrivial = true;
 }
 
@@ -1210,10 +1225,12 @@ extern "C" int __wrap_rtr_sync(struct rtr_socket *s)
 	p.cb_add = p.cb_del = 0;
 	p.sync_allocfail_before = simalloc_failures();
 	int win = -1;
-	if (W->c06 && p.cur_x >= 0 && p.xs[(size_t)p.cur_x].qtype == PDU_RESET_QUERY && p.xs[(size_t)p.cur_x].sync_calls == 0 &&
+	if (W->c06 && p.cur_x >= 0 && p.xs[(size_t)p.cur_x].qtype == PDU_RESET_QUERY &&
 	    (!W->model_pfx[(size_t)si].empty() || !W->model_spki[(size_t)si].empty())) {
 		Win6 wn;
 		wn.si = si;
+		wn.xid = p.xs[(size_t)p.cur_x].id;
+		wn.call = p.xs[(size_t)p.cur_x].sync_calls + 1;
 		wn.start = ++W->stamp;
 		wn.end = 0;
 		wn.oldp = W->model_pfx[(size_t)si];
@@ -1230,12 +1247,15 @@ extern "C" int __wrap_rtr_sync(struct rtr_socket *s)
 		win = (int)W->wins.size() - 1;
 		W->reload_active = win;
 		W->ctx.count("probe_reload_windows");
+		W->note("window %d opens: socket %d stamp %llu old %zu/%zu new %zu/%zu other %zu/%zu", win, si, (unsigned long long)wn.start, wn.oldp.size(),
+			wn.olds.size(), wn.newp.size(), wn.news.size(), wn.otherp.size(), wn.others.size());
 	}
 	int rc = __real_rtr_sync(s);
 	if (win >= 0) {
 		W->wins[(size_t)win].end = ++W->stamp;
 		W->wins[(size_t)win].done = true;
 		W->wins[(size_t)win].success = rc == RTR_SUCCESS;
+		W->note("window %d closes: stamp %llu rc=%d", win, (unsigned long long)W->wins[(size_t)win].end, rc);
 		W->reload_active = -1;
 		sim_wake(SIM_W_USER, &W->reader_cv); // a few reads after the reload has ended
 	}
@@ -1421,6 +1441,10 @@ void evaluate_reads6(World &W)
 				stale = true;
 		if (stale && over < 0)
 			continue;
+		if (!wn.other_alt.empty()) {
+			W.ctx.count("reads_not_judged_other_socket_changed");
+			continue; // the other cache's records were not constant around this reload: not the situation C06 describes
+		}
 		auto answer = [&](bool newer) {
 			if (!rd.spki) {
 				PfxModel m;
@@ -1449,6 +1473,8 @@ void evaluate_reads6(World &W)
 					   "reader %d: %s lookup during a full reload of socket %d returned an answer that neither the complete old nor the complete new "
 					   "data set explains (old says %d/%zu, new says %d/%zu, got %d/%zu)",
 					   rd.reader, tbl, wn.si, a_old.first, a_old.second.size(), a_new.first, a_new.second.size(), got.first, got.second.size());
+				W.note("bad read: window %d (%llu..%llu success=%d) read %llu..%llu q=%s", wi, (unsigned long long)wn.start, (unsigned long long)wn.end,
+				       (int)wn.success, (unsigned long long)rd.inv, (unsigned long long)rd.ret, rd.q.str().c_str());
 				continue;
 			}
 			auto key = std::make_tuple(rd.reader, (int)rd.spki, wi);
